@@ -46,6 +46,7 @@ CONSTANTS X,          \* caller-supplied input values, e.g. {1, 2}
           MaxPre,     \* actions before Pickle
           MaxSuf,     \* actions after Pickle
           Methods,    \* ways of pickling: "dumps", "file" (to_pickle/from_pickle), "spawn" (child process)
+          LastFromNewest, \* the restored cache takes its newest entry as last entry (must be FALSE for the property)
           Shared,     \* attributes the copy shares with the original (must be {} for the property)
           Dropped     \* attributes reset instead of carried over   (must be {} for the property)
 
@@ -54,7 +55,9 @@ Other(w) == IF w = "orig" THEN "copy" ELSE "orig"
 Attrs == {"cache", "ctr", "gram", "data", "sett"}
 Points == X \X DV
 P0 == <<0, 0>>
-NoEnts == [outs |-> {}, jacs |-> {}]
+\* the entries of a cache (or of a file): the points with outputs / with a Jacobian, and the most recently
+\* CREATED entry (what a cache object attaching itself to a non-empty file takes as its last entry)
+NoEnts == [outs |-> {}, jacs |-> {}, hasNew |-> FALSE, newest |-> <<0, 0>>]
 
 (* Configurations: kinds = the cache kinds SetCache may select, init = the kind at construction,     *)
 (* fileMode = "shared" | "snapshot", jacInRun = the body computes the Jacobian while executing (no    *)
@@ -82,12 +85,13 @@ ASSUME /\ Configs # {}
 
 VARIABLES conf,     \* the configuration of this behaviour (constant along it)
           ref,      \* ref[w][a] \in {1, 2}
-          cache,    \* cache[i] = [kind, outs, jacs, file]
+          cache,    \* cache[i] = [kind, outs, jacs, hasNew, newest, file, hasLast, last]; last = the entry last
+                    \*            WRITTEN (cache.last_entry: what a warm-started process starts from)
           ctr,      \* ctr[i]   = [ne, nl]
           gram,     \* gram[i]  = [dflt]
           data,     \* data[i]  = [moment, has, pt, mem]
           sett,     \* sett[i]  \in {0, 1}
-          files,    \* files[f] = [outs, jacs]   f \in {1, 2}
+          files,    \* files[f] = [outs, jacs, hasNew, newest]   f \in {1, 2}
           pickled, np, ns,
           ret       \* what the last call did / returned
 cells == <<cache, ctr, gram, data, sett>>
@@ -99,7 +103,8 @@ JacInRun == conf.jacInRun
 Stateful == conf.stateful
 CallCount == conf.callCount
 
-NewCache(k, f) == [kind |-> k, outs |-> {}, jacs |-> {}, file |-> IF k = "hdf" THEN f ELSE 0]
+NewCache(k, f) == [kind |-> k, outs |-> {}, jacs |-> {}, hasNew |-> FALSE, newest |-> P0,
+                   file |-> IF k = "hdf" THEN f ELSE 0, hasLast |-> FALSE, last |-> P0]
 NewCtr  == [ne |-> 0, nl |-> 0]
 NewGram == [dflt |-> 0]
 NewData == [moment |-> "fresh", has |-> FALSE, pt |-> P0, mem |-> <<>>]
@@ -116,9 +121,13 @@ WV(w) == LET c == cache[ref[w].cache] IN
           ctr |-> ctr[ref[w].ctr], gram |-> gram[ref[w].gram], data |-> data[ref[w].data],
           sett |-> sett[ref[w].sett]]
 
-Ents(W) == IF W.cache.kind = "hdf" THEN W.fil ELSE [outs |-> W.cache.outs, jacs |-> W.cache.jacs]
+Ents(W) == IF W.cache.kind = "hdf" THEN W.fil
+           ELSE [outs |-> W.cache.outs, jacs |-> W.cache.jacs, hasNew |-> W.cache.hasNew, newest |-> W.cache.newest]
 PutEnts(W, e) == IF W.cache.kind = "hdf" THEN [W EXCEPT !.fil = e]
-                 ELSE [W EXCEPT !.cache.outs = e.outs, !.cache.jacs = e.jacs]
+                 ELSE [W EXCEPT !.cache.outs = e.outs, !.cache.jacs = e.jacs,
+                                !.cache.hasNew = e.hasNew, !.cache.newest = e.newest]
+\* a write at pt (outputs or Jacobian stored) makes pt the last entry; reading (a hit) does not
+Touch(W, pt) == IF W.cache.kind = "none" THEN W ELSE [W EXCEPT !.cache.hasLast = TRUE, !.cache.last = pt]
 Pt(W, x) == <<x, W.gram.dflt>>
 
 \* an action instance; all fields always present (same type)
@@ -142,14 +151,15 @@ ExecStep(W, x) ==
         hit == W.cache.kind # "none" /\ pt \in e.outs
         jn  == IF JacInRun THEN {pt} ELSE {}
         st  == CASE W.cache.kind = "none"   -> e
-                 [] W.cache.kind = "simple" -> [outs |-> {pt}, jacs |-> jn]
-                 [] OTHER                   -> [outs |-> e.outs \cup {pt}, jacs |-> e.jacs \cup jn]
+                 [] W.cache.kind = "simple" -> [outs |-> {pt}, jacs |-> jn, hasNew |-> TRUE, newest |-> pt]
+                 [] OTHER                   -> [outs |-> e.outs \cup {pt}, jacs |-> e.jacs \cup jn,
+                                                hasNew |-> TRUE, newest |-> pt]
         D1  == [W.data EXCEPT !.moment = "executed", !.has = TRUE, !.pt = pt]
     IN IF hit
        THEN [ret |-> [NoRet EXCEPT !.act = "Execute", !.x = x, !.pt = pt, !.mem = W.data.mem, !.hit = TRUE],
              next |-> [W EXCEPT !.data = D1, !.ctr.ne = IF CallCount THEN @ + 1 ELSE @]]
        ELSE [ret |-> [NoRet EXCEPT !.act = "Execute", !.x = x, !.pt = pt, !.mem = W.data.mem, !.ran = TRUE],
-             next |-> [PutEnts(W, st) EXCEPT !.ctr.ne = @ + 1,
+             next |-> [Touch(PutEnts(W, st), pt) EXCEPT !.ctr.ne = @ + 1,
                           !.data = [D1 EXCEPT !.mem = IF Stateful THEN Append(@, pt) ELSE @]]]
 
 \* linearize(x) (all Jacobians, execute=True): executes first (possibly from the cache); the Jacobian is
@@ -161,8 +171,9 @@ LinStep(W, x) ==
         lin  == ~jhit /\ ~JacInRun
         W1   == E.next
         e1   == Ents(W1)
-        W2   == IF W1.cache.kind = "none" THEN W1
+        W2a  == IF W1.cache.kind = "none" THEN W1
                 ELSE PutEnts(W1, [e1 EXCEPT !.jacs = @ \cup {pt}])
+        W2   == IF lin THEN Touch(W2a, pt) ELSE W2a   \* the computed Jacobian is written to the entry of pt
     IN [ret |-> [E.ret EXCEPT !.act = "Linearize", !.jhit = jhit, !.lin = lin],
         next |-> [W2 EXCEPT !.ctr.nl = IF lin THEN @ + 1 ELSE @, !.data.moment = "linearized"]]
 
@@ -175,10 +186,13 @@ Do(W, a, f, fc) ==
       [] a.act = "SetSetting" -> [ret |-> [NoRet EXCEPT !.act = "SetSetting", !.v = 1 - W.sett],
                                   next |-> [W EXCEPT !.sett = 1 - @]]
       [] a.act = "SetCache"   -> [ret |-> [NoRet EXCEPT !.act = "SetCache", !.k = a.k],
-                                  next |-> [W EXCEPT !.cache = NewCache(a.k, f),
+                                  \* a cache attaching itself to a non-empty file starts at its newest entry
+                                  next |-> [W EXCEPT !.cache = IF a.k = "hdf" /\ fc.hasNew
+                                                               THEN [NewCache(a.k, f) EXCEPT !.hasLast = TRUE, !.last = fc.newest]
+                                                               ELSE NewCache(a.k, f),
                                                      !.fil = IF a.k = "hdf" THEN fc ELSE NoEnts]]
       [] a.act = "ClearCache" -> [ret |-> [NoRet EXCEPT !.act = "ClearCache"],
-                                  next |-> PutEnts(W, NoEnts)]
+                                  next |-> [PutEnts(W, NoEnts) EXCEPT !.cache.hasLast = FALSE, !.cache.last = P0]]
 
 -----------------------------------------------------------------------------
 Init == /\ conf \in Configs
@@ -227,7 +241,10 @@ Pickle(m) ==
     /\ ref' = [ref EXCEPT !["copy"] = [a \in Attrs |-> IF a \in Shared THEN 1 ELSE 2]]
     /\ LET c1 == cache[1]
            snap == FileMode = "snapshot" /\ c1.kind = "hdf"
-       IN /\ cache' = [cache EXCEPT ![2] = Carried("cache", IF snap THEN [c1 EXCEPT !.file = 2] ELSE c1,
+           e1 == IF c1.kind = "hdf" THEN files[c1.file]
+                 ELSE [outs |-> c1.outs, jacs |-> c1.jacs, hasNew |-> c1.hasNew, newest |-> c1.newest]
+           c1n == IF LastFromNewest /\ e1.hasNew THEN [c1 EXCEPT !.hasLast = TRUE, !.last = e1.newest] ELSE c1
+       IN /\ cache' = [cache EXCEPT ![2] = Carried("cache", IF snap THEN [c1n EXCEPT !.file = 2] ELSE c1n,
                                                    NewCache(InitKind, FileOf("copy")))]
           \* the harness byte-copies the object's file (whether or not a cache is attached to it now)
           /\ files' = IF FileMode = "snapshot" THEN [files EXCEPT ![2] = files[1]] ELSE files
@@ -253,6 +270,9 @@ TypeOK == /\ conf \in Configs
                /\ cache[i].kind \in Kinds /\ cache[i].jacs \subseteq cache[i].outs
                /\ cache[i].outs \subseteq Points /\ cache[i].file \in 0..2
                /\ (cache[i].kind = "simple" => Cardinality(cache[i].outs) <= 1)
+               /\ cache[i].hasLast \in BOOLEAN /\ cache[i].last \in Points \cup {P0}
+               /\ (cache[i].kind \in {"simple", "mem"} => /\ cache[i].hasLast = (cache[i].outs # {})
+                                                         /\ (cache[i].hasLast => cache[i].last \in cache[i].outs))
                /\ ctr[i].ne \in 0..(MaxPre + 2 * MaxSuf) /\ ctr[i].nl \in 0..(MaxPre + 2 * MaxSuf)
                /\ gram[i].dflt \in DV /\ sett[i] \in {0, 1}
                /\ data[i].moment \in {"fresh", "executed", "linearized"}
@@ -274,6 +294,11 @@ SameBehaviour ==
 
 \* the restored object exposes the same grammars / defaults / settings / local data / cache content
 SameState == (pickled /\ ns = 0) => NormW(WV("copy")) = NormW(WV("orig"))
+
+\* the last entry of the cache (what a warm-started process starts from) carries over, not "the newest one"
+LastEntryByValue == (pickled /\ ns = 0 /\ "cache" \notin Dropped) =>
+                        /\ cache[ref["copy"].cache].hasLast = cache[ref["orig"].cache].hasLast
+                        /\ cache[ref["copy"].cache].last = cache[ref["orig"].cache].last
 
 \* counters and statistics carry over as values: equal right after Pickle, separate cells
 CountersByValue == pickled => /\ ref["copy"].ctr # ref["orig"].ctr
